@@ -6,7 +6,7 @@ import WaVerif.Gen.C17Loong64
 open WaVerif WaVerif.Proto
 
 namespace C17Drv
-open WaVerif.C17 WaVerif.C17.Rv
+open WaVerif.C17
 
 def lastComponent (s : String) : String :=
   match (s.splitOn ".").getLast? with
@@ -23,6 +23,8 @@ def parseHexNat (s : String) : Option Nat :=
     pure (a * 16 + d)) (some 0)
 
 /-! ### RISC-V -/
+namespace RvD
+open WaVerif.C17.Rv
 
 def rvMnName (m : Mn) : String := lastComponent (reprStr m)
 
@@ -72,6 +74,7 @@ def rvBadRanges : String :=
   "badranges " ++ ",".intercalate (showRange "I" g.i i.i ++ showRange "S" g.s i.s ++ showRange "B" g.b i.b ++
     showRange "U" g.u i.u ++ showRange "J" g.j i.j ++ showRange "SH32" g.sh32 i.sh32 ++ showRange "SH64" g.sh64 i.sh64)
 
+end RvD
 
 /-! ### LoongArch64 -/
 namespace LaD
@@ -137,12 +140,12 @@ end LaD
 def handle (line : String) : String :=
   match words line with
   | ["rv", xl, name, rd, rs1, rs2, rs3, imm] =>
-    match parseNat xl, rvParseReg rd, rvParseReg rs1, rvParseReg rs2, rvParseReg rs3, parseInt imm with
-    | some x, some a, some b, some c, some d, some i => rvEnc x name a b c d i
+    match parseNat xl, RvD.rvParseReg rd, RvD.rvParseReg rs1, RvD.rvParseReg rs2, RvD.rvParseReg rs3, parseInt imm with
+    | some x, some a, some b, some c, some d, some i => RvD.rvEnc x name a b c d i
     | _, _, _, _, _, _ => "bad-op"
   | ["rvdec", xl, h] =>
     match parseNat xl, parseHexNat h with
-    | some x, some w => rvDec x w
+    | some x, some w => RvD.rvDec x w
     | _, _ => "bad-op"
   | ["la", name, rd, rs1, rs2, rs3, imm] =>
     match LaD.parseReg rd, LaD.parseReg rs1, LaD.parseReg rs2, LaD.parseReg rs3, parseInt imm with
@@ -154,8 +157,8 @@ def handle (line : String) : String :=
     | none => "bad-op"
   | ["larows"] => LaD.badRows
   | ["lafmt", name] => LaD.fmtInfo name
-  | ["rvrows"] => rvBadRows
-  | ["rvranges"] => rvBadRanges
+  | ["rvrows"] => RvD.rvBadRows
+  | ["rvranges"] => RvD.rvBadRanges
   | _ => "bad-op"
 
 end C17Drv
